@@ -61,23 +61,23 @@ void check_matching_sizes(const vec_basic &vec)
 {
     for (size_t i = 0; i < vec.size() - 1; i++) {
         auto first_size = size(down_cast<const MatrixExpr &>(*vec[i]));
-        if (first_size.first.is_null()) {
-            continue;
-        }
         for (size_t j = 1; j < vec.size(); j++) {
             auto second_size = size(down_cast<const MatrixExpr &>(*vec[j]));
-            if (second_size.first.is_null()) {
-                continue;
+            // the number of rows and of columns can be unknown independently
+            if (!first_size.first.is_null() && !second_size.first.is_null()) {
+                auto rowdiff = sub(first_size.first, second_size.first);
+                tribool rowmatch = is_zero(*rowdiff);
+                if (is_false(rowmatch)) {
+                    throw DomainError("Matrix dimension mismatch");
+                }
             }
-            auto rowdiff = sub(first_size.first, second_size.first);
-            tribool rowmatch = is_zero(*rowdiff);
-            if (is_false(rowmatch)) {
-                throw DomainError("Matrix dimension mismatch");
-            }
-            auto coldiff = sub(first_size.second, second_size.second);
-            tribool colmatch = is_zero(*coldiff);
-            if (is_false(colmatch)) {
-                throw DomainError("Matrix dimension mismatch");
+            if (!first_size.second.is_null()
+                && !second_size.second.is_null()) {
+                auto coldiff = sub(first_size.second, second_size.second);
+                tribool colmatch = is_zero(*coldiff);
+                if (is_false(colmatch)) {
+                    throw DomainError("Matrix dimension mismatch");
+                }
             }
         }
     }
